@@ -141,6 +141,14 @@ SPECS = [
          ],
          raises={'*': {'ensures': ["raised('e1') or ext_count() > 0"]}},
          serves=['C09'], no_fresh=True),
+    dict(id='S-MacroBody-slots-nonascii', fname='render_m',
+         # slot names are names, whatever alphabet they are written in: two slots whose names differ only
+         # in non-ASCII letters are two slots (static check slot_names_distinct)
+         text='A<m metal:define-macro="m"><d metal:define-slot="gr\u00f6\u00dfe">%s</d>'
+              '<d metal:define-slot="gr\u00fc\u00dfe">%s</d></m>B' % (H1, H2),
+         ensures=["ext_count() <= 4"],
+         raises={'*': {'ensures': ["True"]}},
+         serves=['C09'], no_fresh=True),
 ]
 
 CONTRACTS = schema_contracts(SPECS)
